@@ -193,9 +193,19 @@ fn foreign_image_case(p: &Profile, seed: u64, run: u64, ov: &Override, out: &mut
 
 fn format_case(seed: u64, run: u64, out: &mut RunOut) {
     let mut rng = Rng::new(mix(mix(seed, 0xf0a7), run));
-    let cb = rng.range(9, 21) as u32;
+    // a quarter of the cases: geometries where the formatter has to plan
+    // several refcount blocks, with the metadata around a block boundary
+    let boundary = rng.chance(1, 4);
+    let (cb, ro) = if boundary {
+        let cb = rng.range(9, 12) as u32;
+        let lo = (0..=6u32)
+            .find(|ro| 5 * ((8u64 << cb) >> ro) * (1u64 << cb) <= (32u64 << 20))
+            .unwrap_or(6);
+        (cb, rng.range(lo as u64, 6) as u32)
+    } else {
+        (rng.range(9, 21) as u32, rng.range(0, 6) as u32)
+    };
     let cs = 1u64 << cb;
-    let ro = rng.range(0, 6) as u32;
     let bs_bits = *rng.pick(&[9u32, 9, 10, 12]);
     let bs_bits = bs_bits.min(cb);
     let bs = 1usize << bs_bits;
@@ -203,7 +213,19 @@ fn format_case(seed: u64, run: u64, out: &mut RunOut) {
     // supported sizes: L1 <= 32 MiB
     let rbe = cs * 8 / (1u64 << ro);
     let max_l1_entries = (32u64 << 20) / 8;
-    let mut vsize = match rng.below(6) {
+    let mut vsize = match if boundary { 6 } else { rng.below(6) } {
+        6 => {
+            // 1 + reftable + k blocks + L1 around k * (entries of a block)
+            let k = rng.range(2, 5);
+            let l1c = (k * rbe).saturating_sub(2 + rng.range(0, k + 1)).max(1);
+            let l1c = l1c.min(max_l1_entries * 8 / cs).max(1);
+            let v = (l1c * (cs / 8)).saturating_sub(rng.below(2)).max(1).saturating_mul(l2cover);
+            if v > (1u64 << 48) {
+                l2cover * rng.range(1, 16)
+            } else {
+                v
+            }
+        }
         0 => cs * rng.range(1, 64),
         1 => l2cover * rng.range(1, 16),
         2 => l2cover * rng.range(1, 16) + 512 * rng.range(1, 2 * cs / 512),
